@@ -28,7 +28,9 @@ def gen_case(rng):
     SR = rng.choice([100, 1000.0, 1e4, 25, 2.4e9])
     long = rng.random() < 0.15
     N = 2400 if long else rng.randint(6, 48)
-    nch = rng.randint(1, 3)
+    if rng.random() < 0.03:
+        long, N = True, rng.choice([70001, 100000])       # beyond 2**16 samples (and not a power of two)
+    nch = rng.randint(1, 3) if N < 10000 else rng.randint(1, 2)
     chans = rng.sample(CHAN_POOL, nch)
     kinds = {c: rng.choice(["bp", "bp", "arr"]) for c in chans}
     subs = rng.random() < 0.3 and not long
